@@ -5,6 +5,7 @@ package main
 // "unsupported" so that nothing is ever silently treated as proved.
 
 import (
+	"strings"
 	"go/ast"
 	"go/token"
 	"go/types"
@@ -415,6 +416,71 @@ func (ex *Exec) strLen(s *StrV) *Term {
 func (ex *Exec) callExternalMore(name string, f *FuncV, args []Value, st *State, site *ast.CallExpr) (Value, bool) {
 	ts := ex.ts
 	switch name {
+	case "sync/atomic.LoadPointer", "sync/atomic.CompareAndSwapPointer", "sync/atomic.StorePointer":
+		// sequential meaning on the slice element the address denotes
+		ea, ok := args[0].(*ElemAddrV)
+		if !ok {
+			unsupported("%s on %T", name, args[0])
+		}
+		ex.assumptions["sync/atomic pointer operations have their sequential meaning (one thread); interleavings are not explored"] = true
+		sv, ok := ex.loadLV(st, ea.Owner, site.Pos()).(*SymSliceV)
+		if !ok {
+			unsupported("%s: the slice is not in (length, contents) form", name)
+		}
+		cur := ex.symSliceElem(st, sv, ea.Idx)
+		store := func(nv Value, cond *Term) {
+			r := &SymSliceV{Len: sv.Len, Arrs: append([]*Term(nil), sv.Arrs...), Elem: sv.Elem}
+			var ls []*Term
+			ex.flattenValue(nv, st, &ls)
+			for k := range r.Arrs {
+				r.Arrs[k] = ts.Ite(cond, ts.Store(r.Arrs[k], ea.Idx, ls[k]), r.Arrs[k])
+			}
+			ex.storeLV(st, ea.Owner, r)
+		}
+		switch name {
+		case "sync/atomic.LoadPointer":
+			return cur, true
+		case "sync/atomic.StorePointer":
+			store(args[1], ts.True())
+			return nil, true
+		default:
+			eq := ex.eqValue(cur, args[1])
+			store(args[2], eq)
+			return eq, true
+		}
+	case "(*sync/atomic.Uint64).Add", "(*sync/atomic.Uint64).Load", "(*sync/atomic.Uint64).Store",
+		"(*sync/atomic.Int64).Add", "(*sync/atomic.Int64).Load", "(*sync/atomic.Int64).Store":
+		// the struct's value field, sequentially
+		pv, ok := f.Recv.(*PtrV)
+		if !ok {
+			unsupported("%s on %T", name, f.Recv)
+		}
+		ex.assumptions["sync/atomic integer operations have their sequential meaning (one thread)"] = true
+		stt := pv.Loc.Typ
+		cur := ex.getPath(ex.load(st, pv.Loc), pv.Path, st, site.Pos())
+		sv, ok := cur.(*StructV)
+		if !ok {
+			unsupported("%s: receiver is not a struct value", name)
+		}
+		_ = stt
+		vi := len(sv.Fields) - 1 // the value is the last field of atomic.Uint64 / Int64
+		val := sv.Fields[vi].(*Term)
+		set := func(nv *Term) {
+			nf := append([]Value(nil), sv.Fields...)
+			nf[vi] = nv
+			ex.storeLV(st, LV{Loc: pv.Loc, Path: pv.Path}, &StructV{Fields: nf})
+		}
+		switch {
+		case strings.HasSuffix(name, ".Load"):
+			return val, true
+		case strings.HasSuffix(name, ".Store"):
+			set(args[0].(*Term))
+			return nil, true
+		default:
+			nv := ts.BVBin(OpBVAdd, val, args[0].(*Term))
+			set(nv)
+			return nv, true
+		}
 	case "strings.Split":
 		ex.assumptions["strings.Split returns at least one string; nothing else is assumed about its result"] = true
 		sv := ex.newSymSlice(st, "split", types.Typ[types.String])
